@@ -455,14 +455,25 @@ func runC14(c *Ctx, r *Report, tier string) {
 			si = 1
 		}
 		// which loop must this skip stay in: the section loop for an unknown section, the entry loop for an unknown option
+		// which loop must this skip stay in: the section loop for an unknown section, the entry loop for an
+		// unknown option (identified by the setter call, or by the call of the helper that contains it)
+		siteBlock := func(in ssa.Instruction) *ssa.BasicBlock {
+			if in.Parent() == ip {
+				return in.Block()
+			}
+			if _, chain := c.callChain(in.Parent()); len(chain) > 0 && chain[0].Parent() == ip {
+				return chain[0].Block()
+			}
+			return in.Block()
+		}
 		var lp *Loop
 		if _, isSection := c.Requires(ip, isInstr(iff), litHas(false, "nonempty(call:(*IniParser).matchingGroups("), nil); isSection {
 			for _, in := range c.instrs(ip, c.isCallTo("(*IniParser).matchingGroups")) {
-				lp = innermost(iloops, in.Block())
+				lp = innermost(iloops, siteBlock(in))
 			}
 		} else {
 			for _, in := range c.instrs(ip, c.isCallTo("(*Option).Set")) {
-				lp = innermost(iloops, in.Block())
+				lp = innermost(iloops, siteBlock(in))
 			}
 		}
 		tgt := b.Succs[si]
